@@ -14,11 +14,13 @@ only if its credentials `(u, p)`
   * were presented earlier in `pre`, were a live issued token at that moment, and that
     moment is at most `tokenExpiry` = 300 s ago.
 
-As the code is, this is FALSE (`admit_sound_full_refuted`, known finding F22): the cache
-is keyed by `user ++ pw`, so the earlier presentation only needs the same CONCATENATION.
-What holds for all histories is `admit_sound_modulo_concat`, and the property as stated
-holds for every request whose credentials are not a re-split of other presented
-credentials (`admit_sound_partial`).
+The model mirrors the code after the repair of F22 (commit ed51f8ca: the cache key is
+`user + ":" + pw`; before it was `user + pw`, so any re-split of a validated pair was
+admitted for 300 s). The property as stated is now PROVED at full strength: `admit_sound`.
+The key is the decoded Basic payload itself (`Lemmas.Authn.splitColon_spec`), hence it
+determines the credential pair (`key_injective`). The former counterexample is kept below as
+an `example` that now satisfies the property; the key expression is tied by
+`Ties.C36.cache_key_tied`.
 -/
 import BytomModel.Lemmas.Authn
 
@@ -42,45 +44,25 @@ def AdmitSoundAt (pre : List Op) (r : Req) : Prop :=
 /-- full strength: for all histories and all requests -/
 def admit_sound_full : Prop := ∀ pre r, AdmitSoundAt pre r
 
-/-! ### the refutation (F22) -/
+/-! ### the former counterexample (F22) -/
 
 def witnessPre : List Op :=
   [.create (str "ab") (str "cd"),
    .request { origin := .remote, path := str "/x", auth := some (str "ab:cd") }]
 
-/-- `("a", "bcd")` is not a token; it is admitted because `"a" ++ "bcd" = "ab" ++ "cd"` -/
+/-- `("a", "bcd")` is not a token; before the repair it was admitted because
+    `"a" ++ "bcd" = "ab" ++ "cd"` was the cache key of the validated pair -/
 def witnessReq : Req := { origin := .remote, path := str "/x", auth := some (str "a:bcd") }
 
-theorem admit_sound_full_refuted : ¬ admit_sound_full := by
-  intro h
-  obtain ⟨u, p, hp, hc⟩ := h witnessPre witnessReq (by decide) (by decide) (by decide)
-  have hup : parseBasic witnessReq.auth = some (str "a", str "bcd") := by decide
-  rw [hup] at hp
-  obtain ⟨rfl, rfl⟩ := Prod.mk.inj (Option.some.inj hp)
-  rcases hc with hc | ⟨pre1, r1, rest, hpre, hp1, _, _⟩
-  · exact absurd hc (by decide)
-  · match pre1, hpre with
-    | [], hpre => simp [witnessPre] at hpre
-    | [a], hpre =>
-      simp only [witnessPre, List.cons_append, List.nil_append, List.cons.injEq, Op.request.injEq] at hpre
-      obtain ⟨_, hr, _⟩ := hpre
-      rw [← hr] at hp1
-      exact absurd hp1 (by decide)
-    | a :: b :: c, hpre =>
-      simp [witnessPre] at hpre
+/-! ### soundness -/
 
-/-! ### what holds for all histories -/
-
-/-- **admit_sound_modulo_concat** — for every history and every request: a non-loopback
-request to a non-exempt path is admitted only if it carries credentials `(u, p)` that are
-a live token now, or SOME credentials `(u', p')` with `u' ++ p' = u ++ p` were presented
-within the last 300 s while being a live token. -/
-theorem admit_sound_modulo_concat (pre : List Op) (r : Req)
-    (hloc : isLocal r.origin = false) (hex : exemptPath r.path = false)
-    (hok : (authenticate false (final false pre) r).2.verdict = .ok) :
-    ∃ u p, parseBasic r.auth = some (u, p) ∧
-      (check (final false pre).tokens u p = true ∨
-       ∃ u' p', u' ++ p' = u ++ p ∧ RecentlyValidated pre u' p') := by
+/-- **admit_sound** — the property at full strength: for EVERY history of token creations,
+deletions, clock advances and requests, and EVERY request: with authentication enabled, a
+request from a non-loopback origin to a path that is not a documented static exemption is
+admitted only if its credentials `(u, p)` are an issued token that is live now, or were
+presented earlier in the history while being a live issued token, at most 300 s ago. -/
+theorem admit_sound : admit_sound_full := by
+  intro pre r hloc hex hok
   by_cases hprot : protectedPath r.path = true
   · -- protected paths are refused to non-local callers
     exfalso
@@ -108,53 +90,31 @@ theorem admit_sound_modulo_concat (pre : List Op) (r : Req)
       · exact Or.inl hc
       · right
         obtain ⟨pre1, r1, rest, u', p', h1, h2, h3, h4, h5⟩ := cacheInv false pre _ _ hl
-        exact ⟨u', p', h3, pre1, r1, rest, h1, h2, h4, by rw [h5]; exact hle⟩
+        obtain ⟨rfl, rfl⟩ := key_injective r.auth r1.auth u p u' p' hp h2 h3
+        exact ⟨pre1, r1, rest, h1, h2, h4, by rw [h5]; exact hle⟩
       · simp [hf] at hok
 
-/-- credentials `(u, p)` of `r` are unambiguous in `pre`: no other credential pair presented
-    in `pre` has the same concatenation -/
-def Unambiguous (pre : List Op) (r : Req) : Prop :=
-  ∀ u p, parseBasic r.auth = some (u, p) → ∀ r1, Op.request r1 ∈ pre → ∀ u' p',
-    parseBasic r1.auth = some (u', p') → u' ++ p' = u ++ p → u' = u ∧ p' = p
-
-/-- **admit_sound_partial** — the property as stated holds for every history and every
-request whose credentials are not a re-split of other credentials presented before. -/
-theorem admit_sound_partial (pre : List Op) (r : Req) (hun : Unambiguous pre r) : AdmitSoundAt pre r := by
-  intro hloc hex hok
-  obtain ⟨u, p, hp, h⟩ := admit_sound_modulo_concat pre r hloc hex hok
-  refine ⟨u, p, hp, ?_⟩
-  rcases h with h | ⟨u', p', hcat, pre1, r1, rest, h1, h2, h3, h4⟩
-  · exact Or.inl h
-  · right
-    have hmem : Op.request r1 ∈ pre := by rw [h1]; simp
-    obtain ⟨rfl, rfl⟩ := hun u p hp r1 hmem u' p' h2 hcat
-    exact ⟨pre1, r1, rest, h1, h2, h3, h4⟩
-
-/-- a request that was never preceded by any credentialed request (e.g. the first one) is
-    unambiguous — the hypothesis of `admit_sound_partial` is satisfiable -/
-example : Unambiguous [.create (str "ab") (str "cd")] witnessReq := by
-  intro u p _ r1 hm
-  simp at hm
-
-example : AdmitSoundAt [.create (str "ab") (str "cd")] witnessReq :=
-  admit_sound_partial _ _ (by intro u p _ r1 hm; simp at hm)
+/-- the former counterexample satisfies the property now … -/
+example : AdmitSoundAt witnessPre witnessReq := admit_sound witnessPre witnessReq
+/-- … because the re-split pair is refused: -/
+example : (authenticate false (final false witnessPre) witnessReq).2.verdict = .invalidToken := by decide
 
 /-- **refused_unless_authorised** (contrapositive form, e.g. a deleted token after its
-window): when the credentials are not live and nothing with the same concatenation was
-validated in the last 300 s, a non-loopback request to a non-exempt path is NOT admitted. -/
+window, a wrong secret, a re-split pair): when the credentials are not a live token and were
+not validated in the last 300 s, a non-loopback request to a non-exempt path is NOT admitted. -/
 theorem refused_unless_authorised (pre : List Op) (r : Req) (u p : Bytes)
     (hloc : isLocal r.origin = false) (hex : exemptPath r.path = false)
     (hp : parseBasic r.auth = some (u, p))
     (hdead : check (final false pre).tokens u p = false)
-    (hnone : ∀ u' p', u' ++ p' = u ++ p → ¬ RecentlyValidated pre u' p') :
+    (hnone : ¬ RecentlyValidated pre u p) :
     (authenticate false (final false pre) r).2.verdict ≠ .ok := by
   intro hok
-  obtain ⟨u0, p0, hp0, h⟩ := admit_sound_modulo_concat pre r hloc hex hok
+  obtain ⟨u0, p0, hp0, h⟩ := admit_sound pre r hloc hex hok
   rw [hp] at hp0
   obtain ⟨rfl, rfl⟩ := Prod.mk.inj (Option.some.inj hp0)
-  rcases h with h | ⟨u', p', hc, hr⟩
+  rcases h with h | h
   · rw [hdead] at h; cases h
-  · exact hnone u' p' hc hr
+  · exact hnone h
 
 /-- **local_only_paths** — whatever the configuration, the state and the credentials, a
 request from a non-loopback origin to `/backup-wallet*`, `/restore-wallet*` or
@@ -224,7 +184,7 @@ theorem no_credentials_refused (s : State) (r : Req)
 theorem invalid_refused (s : State) (r : Req) (u p : Bytes)
     (hloc : isLocal r.origin = false) (hprot : protectedPath r.path = false) (hex : exemptPath r.path = false)
     (hp : parseBasic r.auth = some (u, p)) (hdead : check s.tokens u p = false)
-    (hcache : mget s.cache (u ++ p) = none) :
+    (hcache : mget s.cache (u ++ 58 :: p) = none) :
     (authenticate false s r).2.verdict = .invalidToken := by
   rw [authenticate_verdict_remote false s r hloc hprot hex]
   simp only [tokenAuthn, Bool.false_eq_true, if_false, hp]
@@ -340,11 +300,14 @@ theorem clock_monotone (disable : Bool) (a b : List Op) : (final disable a).now 
 
 /-! ### tests: the hypotheses are satisfiable on concrete values -/
 
-example : (authenticate false (final false witnessPre) witnessReq).2.verdict = .ok := by decide
 example : check (final false witnessPre).tokens (str "a") (str "bcd") = false := by decide
 example : protectedPath (str "/backup-wallets") = true ∧ exemptPath (str "/dashboardx") = false := by decide
-/-- after 301 s the re-split credentials are refused again -/
-example : (authenticate false (final false (witnessPre ++ [.advance 301])) witnessReq).2.verdict = .invalidToken := by decide
-example : (authenticate false (final false (witnessPre ++ [.advance 300])) witnessReq).2.verdict = .ok := by decide
+/-- the validated pair itself is served from the cache for 300 s after the token was deleted, not longer -/
+example : (authenticate false (final false (witnessPre ++ [.delete (str "ab"), .advance 300]))
+    { origin := .remote, path := str "/x", auth := some (str "ab:cd") }).2.verdict = .ok := by decide
+example : (authenticate false (final false (witnessPre ++ [.delete (str "ab"), .advance 301]))
+    { origin := .remote, path := str "/x", auth := some (str "ab:cd") }).2.verdict = .invalidToken := by decide
+example : RecentlyValidated (witnessPre ++ [.delete (str "ab"), .advance 300]) (str "ab") (str "cd") :=
+  ⟨[.create (str "ab") (str "cd")], _, [.delete (str "ab"), .advance 300], rfl, by decide, by decide, by decide⟩
 
 end BytomModel.Props.C36
